@@ -403,13 +403,24 @@ package bkl
 //@   property C10
 //@   requires ((_ is VMap) obj)
 //@   decreases (- 1002 depth) 5
+//@   at call process1MapMerge#1
+//@     assert (and (= v (select (mc obj@pre) "$merge")) (= obj (VMap (minus (mc obj@pre) "$merge"))))        [C10]
+//@   at call process1MapReplace#1
+//@     assert (and (= (select (mc obj@pre) "$merge") VAbsent) (= v (select (mc obj@pre) "$replace")))        [C10]
 //@ func process1MapMerge(obj, mergeFrom, mergeFromDocs, v, depth) (res, err)
 //@   inplace obj
 //@   property C10
 //@   requires ((_ is VMap) obj)
 //@   decreases (- 1002 depth) 1
+//@   at call process1#1
+//@     assert (= next (mergeF obj in))                                                                   [C10]
+//@     assert (=> ((_ is VStr) v) (strPathOK (heap Document.Data) (Document.Data mergeFrom) mergeFromDocs (sv v) in false))    [C10]
+//@     assert (=> ((_ is VList) v) (listPathOK (heap Document.Data) (Document.Data mergeFrom) mergeFromDocs (ls v) in false))  [C10]
 //@ func process1MapReplace(obj, mergeFrom, mergeFromDocs, v, depth) (res, err)
 //@   decreases (- 1002 depth) 1
+//@   at call process1#1
+//@     assert (=> ((_ is VStr) v) (strPathOK (heap Document.Data) (Document.Data mergeFrom) mergeFromDocs (sv v) next false))    [C10]
+//@     assert (=> ((_ is VList) v) (listPathOK (heap Document.Data) (Document.Data mergeFrom) mergeFromDocs (ls v) next false))  [C10]
 //@ func process1List(obj, mergeFrom, mergeFromDocs, depth) (res, err)
 //@   uses appNil, snocApp, escNoKey
 //@   ensures (=> (quiet obj (- depth 1)) (and (not (isErr err)) (= res (dropF obj))))    [C06]
@@ -431,8 +442,12 @@ package bkl
 //@   decreases (- 1002 depth) 5
 //@ func process1StringMerge(obj, mergeFrom, mergeFromDocs, depth) (res, err)
 //@   decreases (- 1002 depth) 1
+//@   at call process1#1
+//@     assert (strPathOK (heap Document.Data) (Document.Data mergeFrom) mergeFromDocs (trimPrefix obj "$merge:") in false)      [C10]
 //@ func process1StringReplace(obj, mergeFrom, mergeFromDocs, depth) (res, err)
 //@   decreases (- 1002 depth) 1
+//@   at call process1#1
+//@     assert (strPathOK (heap Document.Data) (Document.Data mergeFrom) mergeFromDocs (trimPrefix obj "$replace:") in false)    [C10]
 
 // ------------------------------------------------------------------------------------------------- process2.go (termination: depth guard)
 
@@ -483,10 +498,20 @@ package bkl
 // ------------------------------------------------------------------------------------------------- get.go (termination)
 
 //@ func getPath(obj, parts) (res, err)
+//@   borrowed
+//@   ensures (= (isErr err) (lookErr obj parts))                                                             [C10]
+//@   ensures (=> (isErr err) (= err ErrRefNotFound))                                                         [C10]
+//@   ensures (=> (not (isErr err)) (= res (lookupF obj parts)))                                              [C10]
 //@   decreases (sllen parts)
 
 //@ func getCross(docs, conf) (res, err)
 //@   borrowed
+//@   uses countMatchNonNeg
+//@   requires ((_ is VMap) conf)
+//@   ensures (=> (= (select (mc conf) "$match") VAbsent) (= err ErrMissingMatch))                                         [C10]
+//@   ensures (=> (and (not (= (select (mc conf) "$match") VAbsent)) (not (= (countMatch (heap Document.Data) docs (select (mc conf) "$match")) 1))) (isErr err))   [C10]
+//@   ensures (=> (and (not (= (select (mc conf) "$match") VAbsent)) (= (select (mc conf) "$path") VAbsent) (not (isErr err)))     [C10]
+//@              (= res (Document.Data (firstMatch (heap Document.Data) docs (select (mc conf) "$match")))))
 //@   decreases (rank conf) 0
 
 // ------------------------------------------------------------------------------------------------- ownership / frame (C02, C10, C19)
@@ -496,19 +521,42 @@ package bkl
 
 //@ func get(doc, docs, m) (res, err)
 //@   borrowed
+//@   ensures (=> ((_ is VStr) m) (strPathOK (heap Document.Data) (Document.Data doc) docs (sv m) res (isErr err)))          [C10]
+//@   ensures (=> ((_ is VList) m) (listPathOK (heap Document.Data) (Document.Data doc) docs (ls m) res (isErr err)))        [C10]
+//@   ensures (=> (and (not ((_ is VStr) m)) (not ((_ is VList) m)) (not ((_ is VMap) m))) (= err ErrInvalidType))           [C10]
+//@   ensures (=> (and ((_ is VMap) m) (= (select (mc m) "$match") VAbsent)) (= err ErrMissingMatch))                        [C10]
+//@   ensures (=> (and ((_ is VMap) m) (not (= (select (mc m) "$match") VAbsent)) (not (= (countMatch (heap Document.Data) docs (select (mc m) "$match")) 1))) (isErr err))   [C10]
+//@   ensures (=> (and ((_ is VMap) m) (not (= (select (mc m) "$match") VAbsent)) (= (select (mc m) "$path") VAbsent) (not (isErr err)))   [C10]
+//@              (= res (Document.Data (firstMatch (heap Document.Data) docs (select (mc m) "$match")))))
 //@   decreases (rank m) 1
 //@ func getPathFromString(obj, docs, path) (res, err)
 //@   borrowed
+//@   ensures (strPathOK (heap Document.Data) obj docs path res (isErr err))                                  [C10]
 //@ func getPathFromList(obj, docs, path) (res, err)
 //@   borrowed
+//@   uses countMatchNonNeg
+//@   ensures (listPathOK (heap Document.Data) obj docs (ls path) res (isErr err))                           [C10]
+
 //@ func getCrossDoc(docs, pat) (res, err)
 //@   borrowed
+//@   uses countMatchNonNeg
+//@   ensures (=> (= (countMatch (heap Document.Data) docs pat) 0) (= err ErrNoMatchFound))                   [C10]
+//@   ensures (=> (> (countMatch (heap Document.Data) docs pat) 1) (= err ErrMultiMatch))                     [C10]
+//@   ensures (=> (= (countMatch (heap Document.Data) docs pat) 1)                                            [C10]
+//@              (and (not (isErr err)) (= res (firstMatch (heap Document.Data) docs pat)) (not (= res 0))))
+//@   loop 1
+//@     invariant (= (+ (ite (= ret 0) 0 1) (countMatch (heap Document.Data) rest pat)) (countMatch (heap Document.Data) docs pat))
+//@     invariant (=> (not (= ret 0)) (= ret (firstMatch (heap Document.Data) docs pat)))
+//@     invariant (=> (= ret 0) (= (firstMatch (heap Document.Data) rest pat) (firstMatch (heap Document.Data) docs pat)))
 //@ func getWithVar(doc, docs, ec, m) (res, err)
 //@   borrowed
 
 //@ func process1ListMerge(obj, mergeFrom, mergeFromDocs, m, depth) (res, err)
 //@   property C10
 //@   consumes obj
+//@   ensures (=> (not (isErr err)) (exists ((x Val)) (and (= res (mergeF obj x))                             [C10]
+//@               (=> ((_ is VStr) m) (strPathOK (heap Document.Data) (Document.Data mergeFrom) mergeFromDocs (sv m) x false))
+//@               (=> ((_ is VList) m) (listPathOK (heap Document.Data) (Document.Data mergeFrom) mergeFromDocs (ls m) x false)))))
 
 //@ func mergeDocs(doc, patch) (err)
 //@   property C02
@@ -616,3 +664,16 @@ package bkl
 //@   preserves-existing
 //@   ensures (and (>= res allocTop) (not (= res 0)))
 //@   ensures (= (EvalContext.Vars res) (old (EvalContext.Vars ec)))                                         [C12]
+
+// ------------------------------------------------------------------------------------------------- get.go, match.go (look-ups, C10)
+
+//@ func matchDoc(doc, pat) (res)
+//@   ensures (= res (matchS (Document.Data doc) pat))                                                        [C10] [C02]
+//
+//@ func toStringList(l) (res, err)
+//@   uses sappNil, ssnocApp
+//@   ensures (= (isErr err) (not (allStr (ls l))))
+//@   ensures (=> (not (isErr err)) (= res (toSL (ls l))))
+//@   loop 1
+//@     invariant (= (allStr rest) (allStr (ls l)))
+//@     invariant (= (sapp ret (toSL rest)) (toSL (ls l)))
